@@ -62,11 +62,13 @@ class SByteArray(object):
 
 class SInt(object):
     """Symbolic non-negative int held in a 32-bit vector (values are bounded by
-    construction: <= 9 decimal digits, small counters), so no wrap-around."""
-    __slots__ = ("e",)
+    construction: <= 9 decimal digits, small counters), so no wrap-around.
+    `digits`: the decimal digit characters it was parsed from, when it came from int(str)."""
+    __slots__ = ("e", "digits")
 
-    def __init__(self, e):
+    def __init__(self, e, digits=None):
         self.e = e
+        self.digits = digits
 
     __hash__ = None
 
@@ -582,7 +584,7 @@ def to_int(h):
                  else z3.ZeroExt(INT_BITS - c.size(), c) - 48)
             v = v * 10 + d
         v = simp(v)
-        return v if isinstance(v, int) else SInt(v)
+        return v if isinstance(v, int) else SInt(v, list(h))
     other = C.str_pred_set("isspace").ranges + C.str_pred_set("isdigit").ranges + [(43, 43), (45, 45), (95, 95)]
     maybe = C.CharSet(sorted(set(other)))
     # merge overlapping ranges conservatively: CharSet requires disjoint sorted ranges
@@ -598,8 +600,38 @@ def to_int(h):
     raise ValueError("invalid literal for int() with base 10")
 
 
+HEXSET = C.CharSet([(0x30, 0x39), (0x41, 0x46), (0x61, 0x66)], "hex")
+
+
+def to_int_hex(h):
+    """int(str, 16) for symbolic strings of plain hex digits (no prefix / sign / underscore)"""
+    if len(h) == 0:
+        raise ValueError("invalid literal for int() with base 16: ''")
+    if len(h) > 7:
+        raise Unsupported("int(s, 16) of more than 7 symbolic digits")
+    if br(all_in(h, HEXSET)):
+        v = z3.BitVecVal(0, INT_BITS)
+        for c in h:
+            if isinstance(c, int):
+                d = z3.BitVecVal(int(chr(c), 16), INT_BITS)
+            else:
+                z = z3.ZeroExt(INT_BITS - c.size(), c)
+                d = z3.If(z3.ULE(z, 0x39), z - 0x30, z3.If(z3.ULE(z, 0x46), z - 0x37, z - 0x57))
+            v = v * 16 + d
+        v = simp(v)
+        return v if isinstance(v, int) else SInt(v)
+    raise Unsupported("int(s, 16) of a string with sign / prefix / spaces / non-hex characters")
+
+
 def int_to_str(v):
     """str(SInt): fork on the number of digits."""
+    if v.digits is not None:
+        # the int was parsed from these digits: its str() is the same digits without leading zeros
+        d = v.digits
+        i = 0
+        while i < len(d) - 1 and br(ceq(d[i], 48)):
+            i += 1
+        return mk("str", d[i:])
     e = v.e
     for nd in range(1, 11):
         if nd == 10 or br(z3.ULT(e, 10 ** nd)):
